@@ -167,6 +167,10 @@ def build():
             (if c == P_OUT_IDX || c == P_MULT_OUT {{ op_col({PRE}, *first_idx + *actual_k - 1, c) }}
              else if c == P_MULT_B {{ fe_mul(op_col({PRE}, *first_idx as int, c), fe_from(*actual_k as nat)) }}
              else {{ op_col({PRE}, *first_idx as int, c) }})''')
+    # the lane's b multiplicity is `k x (first step's)`: the same as the SUM of the steps' own multiplicities only if every step of the group has the first step's
+    # (all readers); a private `b` first used by step 0 is a creator there and a reader later (finding C09-packed-group-b-creator-multiplied)
+    f.ensures('H_every_step_of_a_packed_group_has_the_b_multiplicity_of_its_first_step',
+              f'forall|t: int| 1 <= t < *actual_k ==> #[trigger] op_col({PRE}, *first_idx + t, P_MULT_B as int) == op_col({PRE}, *first_idx as int, P_MULT_B as int)')
     f.ensures('arity_selector_set', f'final(values)@[{XB} + (*actual_k - 2)] == fe_from(1)')
     f.ensures('later_steps_carry_their_own_operands_and_reader_multiplicities', f'''forall|t: int| 1 <= t < *actual_k ==> #[trigger] step_ok(final(values)@, {PRE}, {XB} as int, self.horner_packed_steps as int, *first_idx as int, t, op_col({PRE}, *first_idx as int, P_MULT_A as int))''')
     f.ensures('nothing_else_written', f'''final(values)@.len() == old(values)@.len() && forall|q: int| 0 <= q < old(values)@.len() && !(base <= q < base + PREP_LANE_WIDTH) && !({XB} <= q < (row + 1) * row_width)
